@@ -311,6 +311,14 @@ def i7(ctx):
         b = C.unwrap_delegation(crate, b)       # `add_expr(re) = add_expr_with(re, Semantic)`: look at the worker
         rec = [c for c in b.calls if c.callee and c.callee.target == b.id and not b.blocks[c.bb]["cleanup"]]
         last = [c for c in b.calls if c.callee and c.callee.name == fin and c.callee.target != b.id and not b.blocks[c.bb]["cleanup"]]
+
+        def re_arg(c, b=b, what=what):
+            """the term argument of the recursive call, by type (free function (re, eg) or method (self, re))"""
+            for a in c.args:
+                pl = mir.op_place(a)
+                if pl is not None and not pl["p"] and "RecExpr" in b.local_ty(pl["l"]):
+                    return a
+            return c.args[0 if what == "lookup_rec_expr" else 1]
         if not rec:
             # higher-order form: the recursion lives in a closure handed to a node-rebuilding helper together with the node and
             # its children; the helper walks the children in order (its own loop), the node is handled afterwards
@@ -352,12 +360,12 @@ def i7(ctx):
         for c in b.calls:
             if c.callee and c.callee.name == "index_mut" and role_mentions_call(b.role_of_operand(c.args[0]), "applied_id_occurrences_mut"):
                 i_w = role_str(b.role_of_operand(c.args[1]))
-                child = role_str(b.role_of_operand(rec[0].args[0 if what == "lookup_rec_expr" else 1]))
+                child = role_str(b.role_of_operand(re_arg(rec[0])))
                 # same loop counter drives the child index and the occurrence index
                 idx_ok = ("next(" in i_w) and ("next(" in child)
         if not idx_ok:
             # zipped form: `for (i, r) in refs.iter_mut().enumerate() { **r = rec(children[i]) }`
-            child = b.role_of_operand(rec[0].args[0 if what == "lookup_rec_expr" else 1])
+            child = b.role_of_operand(re_arg(rec[0]))
             for s_ in st:
                 tgt = b.role_of_local(s_["lhs"]["l"])
                 if role_mentions_call(tgt, "enumerate") and role_mentions_call(tgt, "applied_id_occurrences_mut") and role_mentions_call(child, "enumerate"):
